@@ -218,6 +218,7 @@ type c06 struct {
 	place    string
 	// litNearEnd: one of the last 4 bytes is t, f or n (a JSON literal that cannot be complete)
 	litNearEnd string
+	hasB64     bool
 	// widthFactor: output bytes per input byte that writing the unset fields of the widest struct can cost
 	widthFactor int
 }
@@ -226,7 +227,7 @@ type c06 struct {
 func (c *c06) guarded(name string, inLen int, f func()) {
 	w := c.w
 	w.NextOp(fmt.Sprintf("%s on %s (%d bytes)", name, c.fault, inLen))
-	w.opFacts = map[string]string{"entry": name, "fault": faultClass(c.fault), "last_byte": c.lastByte, "in_place": c.place, "literal_near_end": c.litNearEnd}
+	w.opFacts = map[string]string{"entry": name, "fault": faultClass(c.fault), "last_byte": c.lastByte, "in_place": c.place, "literal_near_end": c.litNearEnd, "has_base64": fmt.Sprint(c.hasB64)}
 	var before runtime.MemStats
 	runtime.ReadMemStats(&before)
 	tapeCap0 := cap(w.T.Rec)
@@ -307,6 +308,27 @@ func runC06(w *W) {
 	so := tgenOpts{MaxStructs: 1 + t.Intn(3, "sch.structs"), MaxFields: 1 + t.Intn(6, "sch.fields"), MaxDepth: 1 + t.Intn(3, "sch.depth"),
 		BigIDs: t.Chance(1, 3, "sch.bigids"), Recursive: t.Chance(1, 3, "sch.rec"), Requiredness: t.Chance(1, 3, "sch.req")}
 	sch := genSchema(t, so)
+	// base64 binaries + JSON->Thrift is the precondition of the open native finding F01 (decode past the output
+	// capacity): in such worlds every output buffer ends at an unmapped page and the JSON input does not, so
+	// that the overflow is a deterministic, attributable fault instead of a silent corruption of the worker's heap
+	hasB64 := false
+	for _, st := range sch.Structs {
+		for _, f := range st.Fields {
+			var walk func(tt *TType)
+			walk = func(tt *TType) {
+				if tt == nil {
+					return
+				}
+				if tt.Kind == tSTRING && tt.Binary {
+					hasB64 = true
+				}
+				walk(tt.Elem)
+				walk(tt.Key)
+			}
+			walk(f.T)
+		}
+	}
+	w.World.GuardGrowth = hasB64
 	c := &c06{w: w, rootT: sch.Root}
 	c.desc = parseThrift(w, sch, thrift.Options{})
 	c.desc2 = parseThrift(w, sch, thrift.Options{})
@@ -345,8 +367,12 @@ func runC06(w *W) {
 			bad, how := damageJSON(w, js)
 			c.fault = "json:" + how
 			place := pickInt(t, "in.place", simrt.PlaceGuardEnd, simrt.PlaceGuardFront, simrt.PlaceHeap, simrt.PlaceReadOnly)
+			if hasB64 {
+				place = simrt.PlaceHeap
+			}
 			in := w.AllocData(bad, place)
 			c.lastByte, c.place = lastByteClass(bad), simrt.PlaceNames[place]
+			c.hasB64 = hasB64
 			c.litNearEnd = "false"
 			for i := len(bad) - 1; i >= 0 && i >= len(bad)-4; i-- {
 				if bad[i] == 't' || bad[i] == 'f' || bad[i] == 'n' {
@@ -355,8 +381,9 @@ func runC06(w *W) {
 			}
 			c.guarded("j2t.Do", len(bad), func() { jc.Do(ctx, c.desc, in.B) })
 			if t.Chance(1, 2, "j2t.into") {
+				ob := w.Alloc(t.Intn(64, "j2t.cap"), simrt.PlaceGuardEnd)
 				c.guarded("j2t.DoInto", len(bad), func() {
-					buf := make([]byte, 0, t.Intn(64, "j2t.cap"))
+					buf := ob.B[:0]
 					jc.DoInto(ctx, c.desc, in.B, &buf)
 				})
 			}
